@@ -400,7 +400,11 @@ func TestC31(t *testing.T) {
 	r.Assume("URI literals containing '/', '?', '#', '@', '[' or ']' inside the brackets are not generated (they change where the authority ends); an invalid port after ']' makes rejection legitimate; a valid *zoned* literal being rejected is counted, not judged (the property only demands zone-less ones to be accepted)")
 	walls := map[string]float64{}
 	t0 := time.Now()
-	lap := func(name string) { walls[name] = time.Since(t0).Seconds(); t0 = time.Now(); r.Set("section_wall_s", walls) }
+	lap := func(name string) {
+		walls[name] = time.Since(t0).Seconds()
+		t0 = time.Now()
+		r.Set("section_wall_s", walls)
+	}
 
 	// --- A: enumeration
 	years := yearsQuick
